@@ -1,9 +1,686 @@
+// Package c11 simulates the NetBIOS session transport (nbt.NBTTransport,
+// obtained through smb_v10/transport.NewTransport) over a simulated TCP byte
+// stream with segmentation, coalescing, delay, bounded windows and a
+// connection cut (FIN, RST, local close) at a chosen byte offset.
 package c11
 
-import "verif.local/harness/hx"
+import (
+	"bytes"
+	"fmt"
+	"net"
 
-var ProbeNames = map[int]string{}
+	"github.com/TheManticoreProject/Manticore/network/smb/smb_v10/transport"
 
+	"verif.local/harness/hx"
+	simnet "verif.local/sim/net"
+	"verif.local/sim/rt"
+)
+
+const (
+	PCutInHeader = rt.PUser + iota
+	PCutInBody
+	PCutAtBoundary
+	PHeaderSplit
+	PLargeFrame
+	POversize
+	PLocalCloseWhileBlocked
+	PEmptyPayload
+)
+
+var ProbeNames = map[int]string{
+	PCutInHeader:            "cut_inside_header",
+	PCutInBody:              "cut_inside_body",
+	PCutAtBoundary:          "cut_at_frame_boundary",
+	PHeaderSplit:            "header_arrived_in_several_reads",
+	PLargeFrame:             "frame_of_64KiB_or_more",
+	POversize:               "payload_too_large_to_frame",
+	PLocalCloseWhileBlocked: "local_close_while_receive_blocked",
+	PEmptyPayload:           "empty_payload",
+}
+
+const maxLen = 0x1FFFF
+
+// Independent RFC 1002 §4.3.1 session-message framer: type 0x00, flags bit 0 = length bit 16, 16-bit big-endian length.
+func frame(p []byte) []byte {
+	n := len(p)
+	out := make([]byte, 4, 4+n)
+	out[0] = 0x00
+	out[1] = byte((n >> 16) & 1)
+	out[2] = byte(n >> 8)
+	out[3] = byte(n)
+	return append(out, p...)
+}
+
+func payload(f, n int) []byte {
+	p := make([]byte, n)
+	x := uint32(f)*2654435761 + 12345
+	for i := range p {
+		x = x*1664525 + 1013904223
+		p[i] = byte(x>>24) ^ byte(i) ^ byte(i>>8)
+	}
+	return p
+}
+
+var boundaryLens = [...]int{0, 1, 2, 3, 4, 5, 0xFF, 0x100, 0xFFFF, 0x10000, 0x10001, 0x1FFFE, 0x1FFFF, 0x20000, 0x20001, 0x2FFFF}
+
+const (
+	WirePair    = 0 // SUT sender -> SUT receiver (crossover)
+	WireSUTSend = 1 // SUT sender -> scripted peer
+	WireSUTRecv = 2 // scripted peer -> SUT receiver
+)
+
+const (
+	cutNone  = 0
+	cutFIN   = 1
+	cutRST   = 2
+	cutLocal = 3
+)
+
+var cutNames = [...]string{"none", "FIN", "RST", "local-close"}
+var wireNames = [...]string{"pair", "sut-sends", "sut-receives"}
+
+type plan struct {
+	wiring  int
+	lens    []int
+	cutKind int
+	cutAt   int // byte offset in the wire stream
+	segMode int // -1 from the choice stream, 0 whole, 1 byte by byte
+	window  int
+	quiet   bool
+}
+
+type recvRes struct {
+	data []byte
+	err  error
+}
+
+type sendRes struct {
+	n   int
+	err error
+}
+
+func lenBucket(n int) string {
+	switch {
+	case n == 0:
+		return "0"
+	case n < 0x10000:
+		return "<64K"
+	case n <= maxLen:
+		return "64K..128K-1"
+	default:
+		return ">=128K"
+	}
+}
+
+func genLen(allowLarge bool) int {
+	a, b, c := hx.G(4), hx.G(len(boundaryLens)), hx.G(1<<16)
+	switch a {
+	case 0:
+		l := boundaryLens[b]
+		if l >= 0xFFFF && !allowLarge {
+			return c % 40
+		}
+		return l
+	case 1:
+		return c % 40
+	case 2:
+		return c % 2000
+	default:
+		if allowLarge {
+			return (c * 4) % 200000
+		}
+		return c % 300
+	}
+}
+
+func genPlan(o hx.Opts) *plan {
+	p := &plan{segMode: -1}
+	p.wiring = hx.G(3)
+	const maxFrames = 6
+	var lens [maxFrames]int
+	large := 0
+	for i := range lens {
+		lens[i] = genLen(large < 2)
+		if lens[i] >= 0xFFFF {
+			large++
+		}
+	}
+	n := 1 + hx.G(maxFrames)
+	p.lens = append(p.lens, lens[:n]...)
+	p.window = [...]int{1 << 20, 1 << 20, 4096, 64, 7}[hx.G(5)]
+	ck, cpos, cfine := hx.F(5), hx.F(1<<16), hx.F(12)
+	switch ck {
+	case 1:
+		p.cutKind = cutFIN
+	case 2:
+		p.cutKind = cutRST
+	case 3:
+		p.cutKind = cutLocal
+	}
+	if p.cutKind != cutNone {
+		total := 0
+		var bounds []int
+		for _, l := range p.lens {
+			if l > maxLen {
+				continue
+			}
+			bounds = append(bounds, total)
+			total += 4 + l
+		}
+		if total == 0 {
+			p.cutKind = cutNone
+		} else {
+			// bias the offset towards header bytes and frame boundaries
+			if cfine < 8 && len(bounds) > 0 {
+				b := bounds[cpos%len(bounds)]
+				p.cutAt = b + cfine - 2
+				if p.cutAt < 0 {
+					p.cutAt = 0
+				}
+				if p.cutAt > total {
+					p.cutAt = total
+				}
+			} else {
+				p.cutAt = cpos % (total + 1)
+			}
+		}
+		if p.cutKind == cutLocal && p.wiring == WireSUTSend {
+			p.cutKind = cutFIN
+		}
+	}
+	return p
+}
+
+// small frame sequences for the exhaustive cut enumeration (total wire size <= 96)
+func enumSequences() [][]int {
+	var out [][]int
+	lens := []int{0, 1, 2, 3, 5, 9, 17, 30}
+	for _, a := range lens {
+		out = append(out, []int{a})
+	}
+	for _, a := range []int{0, 1, 3, 9} {
+		for _, b := range []int{0, 2, 5, 17} {
+			out = append(out, []int{a, b})
+		}
+	}
+	out = append(out, []int{0, 0, 0}, []int{1, 0, 1}, []int{4, 4, 4}, []int{2, 9, 1}, []int{17, 0, 3}, []int{30, 1, 2}, []int{1, 2, 3, 4}, []int{0, 5, 0, 5}, []int{9, 9, 9, 9}, []int{3, 1, 4, 1, 5}, []int{8, 8, 8, 8, 8, 8})
+	out = append(out, []int{40, 40}, []int{88}, []int{60, 20}, []int{10, 20, 30}, []int{7, 7, 7, 7, 7, 7})
+	return out
+}
+
+// EnumSize is the number of runs in the exhaustive cut enumeration.
+func EnumSize() int64 {
+	var n int64
+	for _, s := range enumSequences() {
+		total := 0
+		for _, l := range s {
+			total += 4 + l
+		}
+		n += int64(total+1) * 3 * 3 * 2
+	}
+	return n
+}
+
+// enumPlan decodes run index -> (sequence, wiring, cut kind, segmentation, cut offset).
+func enumPlan(index int64) *plan {
+	for _, s := range enumSequences() {
+		total := 0
+		for _, l := range s {
+			total += 4 + l
+		}
+		size := int64(total+1) * 3 * 3 * 2
+		if index >= size {
+			index -= size
+			continue
+		}
+		p := &plan{lens: s, window: 1 << 20}
+		p.cutAt = int(index % int64(total+1))
+		index /= int64(total + 1)
+		p.cutKind = 1 + int(index%3)
+		index /= 3
+		p.segMode = int(index%3) - 1 // -1 random, 0 whole, 1 byte by byte
+		index /= 3
+		if index == 0 {
+			p.wiring = WireSUTRecv
+		} else {
+			p.wiring = WirePair
+		}
+		return p
+	}
+	return nil
+}
+
+// Run executes one simulated run.
 func Run(seed uint64, index int64, o hx.Opts) *hx.Result {
-	return &hx.Result{Property: "c11", Index: index, Seed: seed, Discarded: "not implemented"}
+	res := &hx.Result{Property: "C11", Index: index, Seed: seed, Extra: map[string]int64{}}
+	en := hx.AllKinds()
+	en[rt.KDrop], en[rt.KDup], en[rt.KTimeSkip] = false, false, false
+	cfg := rt.Config{Seed: seed, Replay: o.Replay, Verbose: o.Verbose, NPoints: o.NPoints, Bias: hx.Swarm(seed, en), MaxSteps: 3_000_000}
+	w := rt.NewWorld(cfg)
+	w.NoSkip = true
+	simnet.RegisterCrossover("10.0.0.99:139")
+
+	var pl *plan
+	var recvs []recvRes
+	var sends []sendRes
+	var wire []byte // bytes the scripted peer received
+	var frames [][]byte
+	var bad *hx.Violation
+
+	v := w.Run(func() {
+		if o.Scenario == "cutenum" {
+			pl = enumPlan(index)
+			if pl == nil {
+				return
+			}
+			res.Scenario = "cutenum"
+		} else {
+			pl = genPlan(o)
+			res.Scenario = "random/" + wireNames[pl.wiring]
+		}
+		for f, l := range pl.lens {
+			frames = append(frames, payload(f, l))
+			switch {
+			case l > maxLen:
+				rt.Probe(POversize)
+			case l >= 0x10000:
+				rt.Probe(PLargeFrame)
+			case l == 0:
+				rt.Probe(PEmptyPayload)
+			}
+		}
+		// wire image of the legal frames and frame boundaries
+		var legal [][]byte
+		var stream []byte
+		for _, p := range frames {
+			if len(p) <= maxLen {
+				legal = append(legal, p)
+				stream = append(stream, frame(p)...)
+			}
+		}
+		if pl.cutKind != cutNone {
+			off, pos := pl.cutAt, 0
+			where := PCutAtBoundary
+			for _, p := range legal {
+				if off > pos && off < pos+4 {
+					where = PCutInHeader
+				} else if off >= pos+4 && off < pos+4+len(p) && len(p) > 0 && off != pos+4+len(p) {
+					if off > pos+4 || len(p) > 0 {
+						where = PCutInBody
+					}
+					if off == pos+4 && len(p) > 0 {
+						where = PCutInBody
+					}
+				}
+				pos += 4 + len(p)
+			}
+			rt.Probe(where)
+		}
+		simnet.SetDefaultWindow(pl.window)
+
+		switch pl.wiring {
+		case WireSUTRecv:
+			ln, err := simnet.Listen("tcp", "10.0.0.2:139")
+			if err != nil {
+				panic(err)
+			}
+			var pc simnet.Conn
+			tr := transport.NewTransport("nbt")
+			peer := rt.GoHarness("peer", "10.0.0.2", func() {
+				c, err := ln.Accept()
+				if err != nil {
+					return
+				}
+				pc = c
+				if pl.segMode >= 0 {
+					simnet.ForceSegmentation(c, pl.segMode)
+				}
+				data := stream
+				if pl.cutKind != cutNone {
+					data = stream[:pl.cutAt]
+				}
+				// the peer writes in its own chunks; the network segments them further
+				for len(data) > 0 {
+					k := len(data)
+					if pl.segMode < 0 {
+						switch hx.F(4) {
+						case 1:
+							if k > 1 {
+								k = 1 + hx.F(k)
+							}
+						case 2:
+							if k > 4 {
+								k = 4
+							}
+						}
+					}
+					if _, err := c.Write(data[:k]); err != nil {
+						return
+					}
+					data = data[k:]
+				}
+				switch pl.cutKind {
+				case cutFIN:
+					c.Close()
+				case cutRST:
+					simnet.Abort(c)
+				case cutLocal:
+					// wait until everything sent was delivered, then close the *receiver's* transport from this other task
+					for {
+						_, inflight, _, _ := simnet.Unread(simnet.Peer(c))
+						if inflight == 0 {
+							break
+						}
+						rt.SleepUntil(rt.Now() + 1e6)
+					}
+					for i := 0; i < 3; i++ {
+						rt.Yield()
+					}
+					rt.Probe(PLocalCloseWhileBlocked)
+					tr.Close()
+				}
+			})
+			sut := rt.GoHarness("receiver", "10.0.0.1", func() {
+				if err := tr.Connect(net.IP{10, 0, 0, 2}, 139); err != nil {
+					bad = &hx.Violation{Class: "connect", Key: "connect", Msg: err.Error()}
+					return
+				}
+				recvs = receiveAll(tr, len(legal), pl.cutKind != cutNone)
+			})
+			rt.Join(sut, -1)
+			tr.Close() // a peer still blocked on a full window is released with an error
+			rt.Join(peer, -1)
+			if pc != nil {
+				pc.Close()
+			}
+			ln.Close()
+
+		case WireSUTSend:
+			ln, err := simnet.Listen("tcp", "10.0.0.2:139")
+			if err != nil {
+				panic(err)
+			}
+			tr := transport.NewTransport("nbt")
+			peerReady := &rt.Flag{}
+			peer := rt.GoHarness("peer", "10.0.0.2", func() {
+				c, err := ln.Accept()
+				if err != nil {
+					peerReady.Set()
+					return
+				}
+				if pl.cutKind != cutNone {
+					simnet.CutPeerAfter(c, pl.cutAt, pl.cutKind)
+				}
+				peerReady.Set()
+				buf := make([]byte, 70000)
+				for {
+					n, err := c.Read(buf[:1+hx.F(len(buf))])
+					wire = append(wire, buf[:n]...)
+					if err != nil {
+						c.Close()
+						return
+					}
+				}
+			})
+			sut := rt.GoHarness("sender", "10.0.0.1", func() {
+				if err := tr.Connect(net.IP{10, 0, 0, 2}, 139); err != nil {
+					bad = &hx.Violation{Class: "connect", Key: "connect", Msg: err.Error()}
+					return
+				}
+				peerReady.Wait(-1)
+				for _, p := range frames {
+					n, err := tr.Send(p)
+					sends = append(sends, sendRes{n, err})
+				}
+				tr.Close()
+			})
+			rt.Join(sut, -1)
+			rt.Join(peer, -1)
+			ln.Close()
+
+		case WirePair:
+			s := transport.NewTransport("nbt")
+			r := transport.NewTransport("nbt")
+			if err := s.Connect(net.IP{10, 0, 0, 99}, 139); err != nil {
+				bad = &hx.Violation{Class: "connect", Key: "connect", Msg: err.Error()}
+				return
+			}
+			if err := r.Connect(net.IP{10, 0, 0, 99}, 139); err != nil {
+				bad = &hx.Violation{Class: "connect", Key: "connect", Msg: err.Error()}
+				return
+			}
+			sconn, _ := simnet.LastCrossover()
+			if pl.segMode >= 0 {
+				simnet.ForceSegmentation(sconn, pl.segMode)
+			}
+			if pl.cutKind == cutFIN || pl.cutKind == cutRST {
+				simnet.CutAfter(sconn, pl.cutAt, pl.cutKind)
+			}
+			sender := rt.GoHarness("sender", "", func() {
+				for _, p := range frames {
+					n, err := s.Send(p)
+					sends = append(sends, sendRes{n, err})
+				}
+			})
+			recvr := rt.GoHarness("receiver", "", func() {
+				recvs = receiveAll(r, len(legal), pl.cutKind != cutNone)
+			})
+			if pl.cutKind == cutLocal {
+				rt.GoHarness("closer", "", func() {
+					for i := hx.F(40); i > 0; i-- {
+						rt.SleepUntil(rt.Now() + 1e6)
+					}
+					if recvr.Blocked() {
+						rt.Probe(PLocalCloseWhileBlocked)
+					}
+					r.Close()
+				})
+			}
+			rt.Join(recvr, -1)
+			r.Close() // a sender still blocked on a full window is released with an error
+			rt.Join(sender, -1)
+			s.Close()
+		}
+	})
+	res.SimNs = w.SimNow()
+	if pl == nil {
+		res.Discarded = "index beyond the enumeration"
+		hx.Finish(res, w, v, false)
+		return res
+	}
+	res.NonTrivial = true
+	desc := fmt.Sprintf("wiring=%s frames=%v cut=%s", wireNames[pl.wiring], pl.lens, cutNames[pl.cutKind])
+	if pl.cutKind != cutNone {
+		desc += fmt.Sprintf("@%d", pl.cutAt)
+	}
+	desc += fmt.Sprintf(" seg=%d window=%d", pl.segMode, pl.window)
+	res.Sample = map[string]any{"plan": desc, "sends": len(sends), "receives": len(recvs), "wire_bytes_seen_by_peer": len(wire)}
+	if v == nil && bad == nil {
+		bad = oracle(pl, frames, recvs, sends, wire)
+		if bad != nil {
+			bad.Msg = desc + "\n" + bad.Msg
+		}
+	}
+	res.Violation = bad
+	hx.Finish(res, w, v, false)
+	return res
+}
+
+func describe(r recvRes) string {
+	if r.err != nil {
+		return "error(" + r.err.Error() + ")"
+	}
+	return fmt.Sprintf("%d bytes", len(r.data))
+}
+
+// oracle evaluates the recorded sends, receives and wire bytes against the independent framer.
+func oracle(pl *plan, frames [][]byte, recvs []recvRes, sends []sendRes, wire []byte) *hx.Violation {
+	var legal [][]byte
+	var stream []byte
+	var ends []int
+	for _, p := range frames {
+		if len(p) <= maxLen {
+			legal = append(legal, p)
+			stream = append(stream, frame(p)...)
+			ends = append(ends, len(stream))
+		}
+	}
+	cut := pl.cutKind != cutNone
+	delivered := len(stream)
+	if cut && !(pl.wiring == WirePair && pl.cutKind == cutLocal) {
+		delivered = pl.cutAt
+	}
+	complete := 0
+	for _, e := range ends {
+		if e <= delivered {
+			complete++
+		}
+	}
+
+	// ---- sender side
+	if pl.wiring != WireSUTRecv {
+		for i, p := range frames {
+			if i >= len(sends) {
+				break
+			}
+			if len(p) > maxLen && sends[i].err == nil {
+				return &hx.Violation{Class: "not_refused", Key: lenBucket(len(p)),
+					Msg: fmt.Sprintf("Send of a %d-byte payload (more than the 17-bit length field can express) returned no error", len(p))}
+			}
+			readerStayed := pl.wiring == WireSUTSend
+			if pl.wiring == WirePair {
+				readerStayed = len(recvs) == len(legal)
+				for _, r := range recvs {
+					if r.err != nil {
+						readerStayed = false
+					}
+				}
+			}
+			if len(p) <= maxLen && sends[i].err != nil && !cut && readerStayed {
+				return &hx.Violation{Class: "spurious_send_error", Key: lenBucket(len(p)),
+					Msg: fmt.Sprintf("Send of a %d-byte payload failed on a healthy connection: %v", len(p), sends[i].err)}
+			}
+		}
+	}
+	if pl.wiring == WireSUTSend {
+		want := stream
+		if cut && len(want) > pl.cutAt {
+			want = want[:pl.cutAt]
+		}
+		if !cut && !bytes.Equal(wire, want) || cut && !bytes.HasPrefix(want, wire) {
+			// find the frame in which the streams diverge
+			d := 0
+			for d < len(wire) && d < len(want) && wire[d] == want[d] {
+				d++
+			}
+			fi := 0
+			for fi < len(ends)-1 && ends[fi] <= d {
+				fi++
+			}
+			b := "none"
+			if fi < len(legal) {
+				b = lenBucket(len(legal[fi]))
+			}
+			return &hx.Violation{Class: "wire_format", Key: b,
+				Msg: fmt.Sprintf("bytes on the wire differ from the RFC 1002 session-message framing at stream offset %d (frame #%d, %s payload): peer saw %d bytes, expected %d; around the divergence got % x want % x",
+					d, fi, b, len(wire), len(want), window(wire, d), window(want, d))}
+		}
+	}
+
+	// ---- receiver side
+	if pl.wiring != WireSUTSend {
+		ok := 0
+		sawErr := false
+		for _, r := range recvs {
+			if r.err != nil {
+				sawErr = true
+				continue
+			}
+			if sawErr {
+				return &hx.Violation{Class: "fabricated", Key: "after-error",
+					Msg: fmt.Sprintf("Receive returned a %d-byte message after it had already reported the end of the stream; results: %s", len(r.data), results(recvs))}
+			}
+			if ok >= complete {
+				return &hx.Violation{Class: "fabricated", Key: cutNames[pl.cutKind],
+					Msg: fmt.Sprintf("Receive #%d returned a %d-byte message although only %d frame(s) were completely delivered (stream ended after %d of %d bytes); results: %s",
+						ok, len(r.data), complete, delivered, len(stream), results(recvs))}
+			}
+			if !bytes.Equal(r.data, legal[ok]) {
+				return &hx.Violation{Class: "boundary", Key: lenBucket(len(legal[ok])),
+					Msg: fmt.Sprintf("Receive #%d returned %d bytes, the payload sent was %d bytes (equal prefix: %d bytes); results: %s", ok, len(r.data), len(legal[ok]), eqPrefix(r.data, legal[ok]), results(recvs))}
+			}
+			ok++
+		}
+		mustAll := !cut || pl.cutKind == cutFIN
+		if mustAll && ok < complete {
+			return &hx.Violation{Class: "spurious_receive_error", Key: lenBucket(len(legal[ok])),
+				Msg: fmt.Sprintf("only %d of %d completely delivered frames were returned; results: %s", ok, complete, results(recvs))}
+		}
+		if cut && !sawErr {
+			return &hx.Violation{Class: "no_error_at_end_of_stream", Key: cutNames[pl.cutKind],
+				Msg: "the stream ended but Receive never reported an error; results: " + results(recvs)}
+		}
+	}
+	return nil
+}
+
+func window(b []byte, at int) []byte {
+	lo, hi := at-4, at+8
+	if lo < 0 {
+		lo = 0
+	}
+	if hi > len(b) {
+		hi = len(b)
+	}
+	if lo > hi {
+		lo = hi
+	}
+	return b[lo:hi]
+}
+
+func eqPrefix(a, b []byte) int {
+	n := 0
+	for n < len(a) && n < len(b) && a[n] == b[n] {
+		n++
+	}
+	return n
+}
+
+func results(rs []recvRes) string {
+	s := "["
+	for i, r := range rs {
+		if i > 0 {
+			s += ", "
+		}
+		s += describe(r)
+	}
+	return s + "]"
+}
+
+func receiveAll(tr transport.Transport, expect int, cut bool) []recvRes {
+	var out []recvRes
+	errs := 0
+	if !cut && expect == 0 {
+		return nil // nothing will ever arrive and nothing ends the stream
+	}
+	for {
+		d, err := tr.Receive()
+		out = append(out, recvRes{d, err})
+		if err != nil {
+			errs++
+			if errs >= 3 {
+				return out
+			}
+			continue
+		}
+		if errs > 0 {
+			return out // a success after an error: reported by the oracle
+		}
+		if !cut && len(out) == expect {
+			return out
+		}
+		if len(out) > expect+2 {
+			return out
+		}
+	}
 }
